@@ -20,7 +20,12 @@ in the generated-facts block; the translator never guesses):
               (u)int{8,16,32,64}_t, size_t, bool, varintWidth (each typedef is
               checked against the current headers with a _Generic probe);
               `uint8_t *` / `const uint8_t *` parameters (a byte object) and
-              locals (a position inside one such object);
+              locals (a position inside one such object); a parameter may be
+              advanced itself (p++, p += n); casts between uint8_t * and
+              int8_t * / char * (the same bytes, read through int8_t as a
+              signed value); uninitialised local `uint8_t a[n]` arrays (a byte
+              object whose elements hold no value until stored: reading one is
+              CUB, indexing outside is COob; never passed to a function);
               `T *` parameters for a scalar T (ONE object of type T)
   expressions integer/char literals, enum constants, file-scope `const` integer
               variables with a constant initialiser, parentheses, implicit and
@@ -31,7 +36,8 @@ in the generated-facts block; the translator never guesses):
               scalar pointers, p + i / p - i / &p[i] / p - q on byte pointers,
               &local
   effects     `x = e`, `x op= e`, `++x` `x++` `--x` `x--` (integers and byte
-              pointer locals), `p[i] = e`, `*p = e`, `*p++ = e`, `a, b`, calls —
+              pointer locals), `p[i] = e`, `p[i++] = e`, `*p = e`, `*p++ = e`,
+              `a, b`, calls —
               as a statement, an initialiser, an assigned / returned value, a
               loop or if condition, possibly under casts, `!`, or compared with
               an integer literal; never two of them in one full expression
@@ -43,8 +49,11 @@ in the generated-facts block; the translator never guesses):
               function being translated, not in an inlined callee), `(void)e;`
   calls       * a `static` function of the same file is inlined,
               * a non-static function of the same file is called through its own
-                translation `src_<g>` (byte pointers must be passed unoffset,
-                no two pointer arguments may alias),
+                translation `src_<g>` (no two pointer arguments may alias; a byte
+                pointer p + k is passed as the view `c_view m k` of the object
+                from index k on — an index below k is then COob in the callee,
+                which is conservative — and a writing callee's view is put back
+                with `c_unview`),
               * cond ? a : b whose arms contain such calls (condition call-free),
               * memcpy(p, &x, sizeof x) between two scalar objects of the same
                 type is the assignment *p = x,
